@@ -8,7 +8,7 @@ item assignment applied to the registry objects or to names bound to them."""
 import ast, inspect, io, logging, os, shutil, tempfile, time
 
 
-def exercise():
+def exercise(enum_classes=None):
     log = {'ok': [], 'skipped': []}
     t0 = time.time()
 
@@ -67,6 +67,40 @@ def exercise():
             h = defs.MessageHeader(); h.message_type = 12345
             h.unpack(h.pack(payload=b''), warn_on_unrecognized=False); str(h); h.get_type_string()
         step('lookups and enum helpers', lookups)
+        # 2b. every enum: strict and lenient conversion of unknown values and of unknown names (names other enums define
+        #     included), from_string, the construct adapter's make_default()
+        def enums():
+            from construct import Int8ul, Int16ul
+            from fusion_engine_client.utils.construct_utils import AutoEnum
+            all_names = sorted({n for E in (enum_classes or {}).values() for n in E.__members__ if not n.startswith('_U')})
+            for key, E in sorted((enum_classes or {}).items()):
+                used = {int(m.value) for m in E.__members__.values()}
+                unknown_values = [v for v in (250, 77, 201, 65000) if v not in used][:2]
+                for v in unknown_values:
+                    for fn in (lambda: E(v), lambda: E(v, raise_on_unrecognized=True), lambda: E[v]):
+                        try:
+                            fn()
+                        except (ValueError, KeyError):
+                            pass
+                    try:
+                        m = E(v, raise_on_unrecognized=False); str(m); repr(m); int(m)
+                    except (ValueError, KeyError, TypeError):
+                        pass
+                for n in all_names + ['C03_NO_SUCH_NAME', 'unknown', 'invalid']:
+                    for fn in (lambda: E(n), lambda: E[n], lambda: E.from_string(n, case_insensitive=True),
+                               lambda: E(n, raise_on_unrecognized=False)):
+                        try:
+                            fn()
+                        except (ValueError, KeyError, AttributeError, TypeError):
+                            pass
+                for ctor in (Int8ul, Int16ul):
+                    for lenient in (False, True):
+                        try:
+                            AutoEnum(ctor, E, raise_on_unrecognized=not lenient).make_default()
+                        except (ValueError, KeyError, AttributeError, TypeError):
+                            pass
+                list(E); len(E); list(reversed(E))
+        step('enum conversions (unknown values and names, make_default) on %d enums' % len(enum_classes or {}), enums)
         # 3. readers on a small log
         path = os.path.join(tmp, 'ex.p1log')
         with open(path, 'wb') as f:
